@@ -568,6 +568,20 @@ V({
     "trusted": ["chalk-engine Tables / Table (abstract)", "Rust unwinding semantics"],
 })
 
+# -------------------------------------------------------------------------- V23
+V({
+    "id": "V23",
+    "title": "rec_fixed_point_loop: RecursiveContext::solve_new_subgoal (chalk-recursive/src/fixed_point.rs), Minimums::new, StackEntry::{flag_cycle, read_and_reset_cycle_flag}",
+    "template": "v23_fixed_point_loop.rs",
+    "assumptions": [
+        "V23: ghost state: the abstract SearchGraph carries a history of iterations; SolverStuff::solve_iteration (havoc: it calls back into solve_goal) is ASSUMED to append what it ran against, what it produced, its minimums and the stack's cycle flags, to leave the goal's own node in place and the stack as high as it was",
+        "V23: SearchGraph / Stack are abstract (views: node sequence, goal lookup, cycle flags); rollback_to truncates the node sequence; custom Index/IndexMut impls have no precondition; std::mem::replace per its documentation",
+        "V23: partial correctness only (exec_allows_no_decreases_clause): termination of the fixed-point loop is not claimed",
+        "V23: in the prelude's SolverStuff trait the callback type of solve_iteration is a named type parameter (with `impl Fn() -> bool + Clone` in a method of this generic trait the Verus front end does not terminate); the extracted function is unchanged",
+    ],
+    "trusted": ["chalk-recursive SearchGraph / Stack (abstract)", "SolverStuff::solve_iteration (havoc + ghost history)"],
+})
+
 # ===========================================================================
 GLOBAL_ASSUMPTIONS = [
     "soundness of rustc+Kani's model of core/alloc and of CBMC; soundness of Verus and Z3",
